@@ -332,14 +332,42 @@ def r5_weights_reach_function(ctx):
             from sa.astutil import flow_closure
 
             ok = ok and a is not None and p in flow_closure(cal, a)
-        # weighting: ones only when None
-        fd = local_defs(cal, "factor")
-        ones = [st for st, val in fd if val is not None and "ones" in norm(val)]
-        for st in ones:
-            ts = enclosing_tests(st)
-            ok = ok and any((not pol and norm(t) == "weighting is not None") or (pol and norm(t) == "weighting is None") for t, pol in ts)
-        given = [st for st, val in fd if val is not None and dotted(val) == "weighting"]
-        ok = ok and len(given) == 1
+        # weighting: the given weights when there are some, ones ONLY when none are given - decided per path
+        # (if/else, conditional expression and named intermediates all read the same)
+        from sa.paths import enumerate_paths
+
+        seen_given = seen_ones = False
+        for q_ in enumerate_paths(cal.node.body):
+            if q_.exit == "raise":
+                continue
+            calls_ = [c_ for fn_, c_, _ in q_.calls if fn_ == "self.fitness_func"]
+            if not calls_:
+                continue
+            w_ = kw(calls_[-1], "weighting")
+            wn = names_in(w_) if w_ is not None else set()
+            has_w = q_.holds("weighting is not None")
+            if has_w is None and q_.holds("weighting is None") is not None:
+                has_w = not q_.holds("weighting is None")
+            uses_ones = w_ is not None and any(isinstance(x, ast.Call) and call_name(x).split(".")[-1] in ("ones", "ones_like", "full", "full_like") for x in ast.walk(w_))
+            cond_e = [x for x in ast.walk(w_) if isinstance(x, ast.IfExp) and norm(x.test) in ("weighting is not None", "weighting is None")] if w_ is not None else []
+            if has_w is None and cond_e:
+                # weights chosen by a conditional expression inside the argument
+                ce = cond_e[0]
+                given_e, none_e = (ce.body, ce.orelse) if norm(ce.test) == "weighting is not None" else (ce.orelse, ce.body)
+                ones_in = lambda e_: any(isinstance(x, ast.Call) and call_name(x).split(".")[-1] in ("ones", "ones_like", "full", "full_like") for x in ast.walk(e_))  # noqa: E731
+                ok = ok and "weighting" in names_in(given_e) and not ones_in(given_e) and ones_in(none_e)
+                seen_given = seen_ones = True
+                continue
+            if has_w is True:
+                seen_given = True
+                ok = ok and "weighting" in wn and not uses_ones
+            elif has_w is False:
+                seen_ones = True
+                ok = ok and uses_ones
+            else:
+                ok = ok and "weighting" in wn and not uses_ones
+                seen_given = True
+        ok = ok and seen_given
     ctx.check(ok, cal.qual, "fitness_func(simulated=<sim>, target=<target>, weighting=<weights or ones>)" if ok else "simulated/target/weighting do not reach the fitness function under their own names (or weights are replaced by ones)", where=cal, node=ff[0] if ff else cal.node)
     rets = [r for r in returns_of(cal) if r.value is not None]
     okr = len(rets) == 1 and norm(expand(cal, rets[0].value)).startswith("self.fitness_func(")
